@@ -366,6 +366,7 @@ func (p *Prog) flatten() {
 	for _, f := range tops {
 		if !isHelper(f) && nil == f.Parent() {
 			ssa.Relift(f)
+			ssa.FoldConstOps(f)
 			ssa.CaptureByValue(f)
 			ssa.LiftCells(f)
 		}
